@@ -67,4 +67,33 @@ CHECKS["C20"] = {
   "text": "Proved on the real constructor body for symbolic rows, columns, virtual_rows, limits and initial volumes (absent, scalar, flat list of any length, 2-D of the labware's shape; nan / inf / None / float type-cases): a normal return establishes wf(L) - row/column ids, the well-id array, the index map (total on the grid, nothing else, troughs map every virtual row to real row 0), EVO positions, volumes laid out as given (scalar broadcast / row-major) within [0, max_volume], 0 <= min_volume < max_volume, history == [('initial', copy of the volumes)] - and ValueError is raised for exactly the other specifications. This is the wf(L) that the other contracts assume.",
   "note": "Mixed level: Trough.__init__, get_trough_component_names and get_initial_composition (one-hot composition, default names, names for empty/unknown wells) are covered by the bounded monitor only; get_initial_composition enters the constructor proof through an assumed summary. bool sizes are outside the universe; float = real.",
 }
+CHECKS["C01"] = {
+  "category": "other",
+  "technique": "contract-based deductive verification of the record-emitting operations (aspirate, dispense, distribute, transfer on small symbolic shapes; modular use of the Labware.add/remove, emitter and numbering contracts) + bounded replay monitor with an independent .gwl interpreter for operation sequences",
+  "text": "Proved on the real bodies, for both devices, plates and troughs with symbolic geometry, 1-3 wells with symbolic ids/volumes/labels/keyword arguments: aspirate/dispense append, after the label comment, exactly one A/D record per pair with a positive volume, in order, each naming the labware and the device-specific position of the well the operation named and the volume that the Labware tracking applied (remove/add contracts, C04), so replaying the records reproduces the tracked volumes (I_sync). Sequences of operations, large-volume splitting and compositions are explored by the bounded monitor (independent interpreter of the worklist format).",
+  "note": "Mixed level; bounded parts are labelled in the evidence and never counted as proved. Known finding (Fluent distribute source range) is listed in known_findings.json. float = real; per-record rounding to 2 decimals is the `.2f` axiom.",
+}
+CHECKS["C03"] = {
+  "category": "other",
+  "technique": "contract-based deductive verification with exceptional postconditions at every raise exit (records appended so far are a prefix of the accepted steps; labware update precedes emission; step <= max_volume) + frame obligations + bounded fault-injection monitor",
+  "text": "Proved on the real bodies: at every raise exit of aspirate / dispense (own raises, KeyError for unknown wells, VolumeUnderflow/OverflowError of the labware contract, ValueError / InvalidOperationError of the emitter contract) the record list is the old list plus a prefix of the records of the accepted update, and either nothing was appended or the labware already holds the accepted update; aspirate_well/dispense_well append nothing on a raise and every appended step has volume <= max_volume (InvalidOperationError otherwise); __exit__ saves whatever is in the list for every exc_type. Operation sequences with a failing last operation are explored by the bounded monitor (replay of the records after every operation and after the failure).",
+  "note": "Mixed level (deductive for the single operations on shapes of 1-3 wells, bounded for sequences / transfer / distribute until their contracts carry the clause). float = real.",
+}
+_BOUNDED_ONLY = {
+ "C05": "Composition: exact-Fraction replay of seeded + enumerated operation histories (transfers incl. serial dilutions in one call, same-well, emptied-and-refilled wells, zero volumes, troughs, shared names) on real Labware/worklist objects; fractions finite, in [0,1], sum to 1, removal-invariant, component totals conserved; all naming configurations enumerated.",
+ "C07": "Transfers: independent .gwl parser + own grouping model over all permutations of base triple sets, all wash schemes, partition modes, DiTi on/off, argument shapes (accepted and to-be-rejected), both devices; flows per (source, destination), A/D pairing, tip action and break records.",
+ "C13": "EVO script commands: own parser of B;Aspirate/Dispense/Wash records and own selection-bitmap decoder; enumerated grid/site/arm/volume boundaries, all well x tip lists of length <= 2 over 13 tip tokens, seeded sessions against tracked volumes.",
+ "C14": "DilutionPlan: grid + seeded random + boundary-pushed parameter sets checked clause by clause in Fractions; to_worklist executed on both devices with an independent A/D interpreter (known budget finding excluded).",
+ "C15": "Well transforms: enumerated shapes / anchors / seeds / modes + seeded random sub-arrays (scalar, 1-D, 2-D) against own index arithmetic; inverses, bijections, shape preservation, fit refusal, seed determinism.",
+ "C16": "EVO vs Fluent: seeded + enumerated operation programs run on both devices (and BaseWorklist), records compared field by field with the own trough numbering relation, volumes / compositions / histories / exception classes compared.",
+ "C18": "Column partitioning: all triple lists of length <= 2 (3 thorough) over a collision-rich well set + seeded random lists up to 40 triples; multiset preservation, single column per group, ascending columns and rows; automatic mode rule on all labware-kind pairs.",
+}
+for _pid, _txt in _BOUNDED_ONLY.items():
+    CHECKS[_pid] = {
+        "category": "exploration",
+        "technique": "bounded runtime-contract monitor (stand-in): property-level oracles evaluated on the real code for enumerated + seeded inputs; the deductive contracts for this property's functions are not discharged yet",
+        "text": _txt + " This is the bounded stand-in of the contract-based approach, labelled as such; nothing here is counted as proved.",
+        "note": "Bounded: holds only for the inputs explored (bounds and counts in the evidence). Oracles are independent re-implementations (own parser / interpreter / Fraction arithmetic). See DESIGN.md section 5 for the contracts planned for this property.",
+        "design_ref": "DESIGN.md section 2.9 and 5." + _pid,
+    }
 NOT_APPLICABLE = {}
